@@ -17,10 +17,10 @@ import decimal
 import re
 
 ACCEPT, REJECT, DONTCARE = "ACCEPT", "REJECT", "DONTCARE"
-_PLAIN = re.compile(r"^[0-9]+$")
-_PLAIN_DEC = re.compile(r"^[0-9]+(\.[0-9]+)?$")
-_HEX_LOWER = re.compile(rb"^[0-9a-f]{32}$")
-_HEX_ANY = re.compile(rb"^[0-9a-fA-F]{32}$")
+_PLAIN = re.compile(r"\A[0-9]+\Z")   # not $: it would also match before a trailing newline
+_PLAIN_DEC = re.compile(r"\A[0-9]+(\.[0-9]+)?\Z")
+_HEX_LOWER = re.compile(rb"\A[0-9a-f]{32}\Z")
+_HEX_ANY = re.compile(rb"\A[0-9a-fA-F]{32}\Z")
 
 
 def ref_mask(s):
